@@ -271,7 +271,7 @@ func vfBoot(cfg vfConfig) *vfEnv {
 	if cfg.Media {
 		dir := cfg.UploadDir
 		if dir == "" {
-			dir = filepath.Join(outDir, "uploads")
+			dir = filepath.Join(outDir, "uploads-"+os.Getenv("VF_BATCH")+"-"+fmt.Sprint(os.Getpid()))
 		}
 		os.MkdirAll(dir, 0755)
 		e.cfg.UploadDir = dir
